@@ -749,7 +749,10 @@ def run_dynamic(tier='quick', seed=0):
             holder_rm = {}
 
             def _rm():
-                holder_rm["s"].remove([wr.workDo])
+                try:
+                    holder_rm["s"].remove([wr.workDo, wr.workDo])   # named twice: removed once, no error (repaired defect)
+                except ValueError as ex_rm:
+                    seen_rm["error"] = repr(ex_rm)
                 seen_rm["at_return"] = list(log_rm)
                 seen_rm["doers"] = len(holder_rm["s"].doers)
 
@@ -788,7 +791,9 @@ def run_dynamic(tier='quick', seed=0):
             at = seen_rm.get("at_return", [])
             got_rm = dict(closed_at_return=at.count("exit"), doers_after=seen_rm.get("doers"), recurs_after=log_rm.count("recur") - at.count("recur"),
                           exits=log_rm.count("exit"))
-            if got_rm != dict(closed_at_return=1, doers_after=1, recurs_after=0, exits=1):
+            if "error" in seen_rm:
+                v('C06/remove-naming-a-doer-twice-raises', inp_rm, seen_rm["error"], "no error, doer removed once")
+            elif got_rm != dict(closed_at_return=1, doers_after=1, recurs_after=0, exits=1):
                 v('C06/removed-doer-not-closed-or-still-running', inp_rm, got_rm, dict(closed_at_return=1, doers_after=1, recurs_after=0, exits=1))
     return dict(evaluations=evals, distinct_nontrivial=len(distinct), samples=samples, violations=viol,
                 rule="random flat Doist / DoDoer(always=True) hosts with 2..4 doers whose scripts call extend/remove (self, siblings, spare, "
